@@ -15,7 +15,15 @@ func init() { core.Register("C13", c13) }
 
 var amEpoch = time.Unix(1700000000, 0) //nolint:gochecknoglobals
 
-func amTime(t int8) time.Time { return amEpoch.Add(time.Duration(t) * time.Second) }
+// amTime maps the model's four time points to instants. They only have to be ordered; the last one lies beyond what a
+// 64-bit nanosecond count can hold (after 2262-04-11), which an agent comparing time.Time values does not notice.
+func amTime(t int8) time.Time {
+	if t >= 3 {
+		return time.Date(2400, 1, 1, 0, 0, 0, 0, time.UTC).Add(time.Duration(t) * time.Second)
+	}
+
+	return amEpoch.Add(time.Duration(t) * time.Second)
+}
 
 // amRunner drives a real agent sequentially and collects handler events.
 type amRunner struct {
